@@ -82,6 +82,11 @@ def gen_case(rnd, spec):
         return p
 
     if rnd.random() < 0.3:
+        which, args = rnd.choice([("max", [3, 7]), ("int", ["42"]), ("divmod", [7, 2]), ("str.format", [3, 7])])
+        gen["payloads"].append({"id": "builtin0", "flavour": "threading", "executed": True, "args": args, "kwargs": {}, "cleanup": {"kind": "none"},
+                                "builtin": which, "program": [], "outcome": ["return", "builtin"]})
+        script.append(["execute", "builtin0"])
+    if rnd.random() < 0.3:
         fl = rnd.choice(common.FLAVOURS)
         gen["payloads"].append({"id": "shared0", "flavour": fl, "executed": True, "args": [], "kwargs": {}, "cleanup": {"kind": "none"}, "callable": "function",
                                 "program": [["sleep", rnd.choice([0.03, 0.06])], ["return", "str"]], "outcome": ["return", "str"]})
@@ -193,9 +198,18 @@ def judge(case, run, result):
             problems.append(("execute of one callable (%s) by %d callers at once: the payload was run %d times" % (pid, len(calls_), len(starts)), None))
         result.count("executes_of_one_callable_by_several_callers_at_once", len(calls_))
         last_outcome = max([last_outcome] + [e["seq"] for e in outs])
+    for call in [c for c in run.of("call", op="execute", gen=0) if c["pid"].startswith("builtin")]:
+        pid = call["pid"]
+        outs = [e for e in run.events if e.get("op") == "execute" and e.get("pid") == pid and e["kind"] in ("return", "raised")]
+        want = {"max": "7", "int": "42", "divmod": "(3, 1)", "str.format": "'3-7'"}[specs[pid]["builtin"]]
+        result.count("executes_of_builtin_callables")
+        if not outs or outs[0]["kind"] != "return" or outs[0].get("repr") != want:
+            problems.append(("execute(%s, %s, flavour=threading) gave %s, expected the value %s"
+                             % (specs[pid]["builtin"], ", ".join(map(repr, specs[pid]["args"])), (outs[0].get("exc"), outs[0].get("msg")) if outs and outs[0]["kind"] == "raised" else (outs and outs[0].get("repr")), want), None))
+        last_outcome = max([last_outcome] + [e["seq"] for e in outs])
     for call in run.of("call", op="execute", gen=0):
         pid = call["pid"]
-        if pid.startswith("shared"):
+        if pid.startswith(("shared", "builtin")):
             continue
         sp = specs[pid]
         outs = [e for e in run.events if e.get("op") == "execute" and e.get("pid") == pid and e["kind"] in ("return", "raised")]
@@ -358,7 +372,7 @@ def run_shard(spec):
 
 
 def finish(total, tier):
-    need = ["executes_judged", "executes_of_one_callable_by_several_callers_at_once", "results_returned_by_identity", "exceptions_raised_by_identity", "runtimes_alive_after_executes",
+    need = ["executes_judged", "executes_of_builtin_callables", "executes_of_one_callable_by_several_callers_at_once", "results_returned_by_identity", "exceptions_raised_by_identity", "runtimes_alive_after_executes",
             "executes_asyncio_from_outside", "executes_trio_from_outside", "executes_threading_from_outside",
             "executes_asyncio_from_tcaller", "executes_trio_from_tcaller", "executes_trio_from_ccaller", "executes_asyncio_from_ccaller"]
     need += ["awaitable_results_returned_as_they_are_%s" % f for f in common.FLAVOURS]
